@@ -41,6 +41,31 @@ def all_spellings(rng, level, res, free, limit=8):
     return uniq[:limit]
 
 
+def interleaved(rng, spellings):
+    """spellings in which a keyword entry stands BEFORE an entry written without its key (the un-named entries keep their
+    order among themselves).  The documentation likens annotations to Python arguments, where this order is not allowed;
+    the library accepts it.  So: if such a spelling is accepted it must mean what its keyword form means, a SyntaxError is
+    a rejection and only counted."""
+    out = []
+    for sp in spellings:
+        ents = sp.split(';')
+        pos = [e for e in ents if '=' not in e]
+        kw = [e for e in ents if '=' in e]
+        if not pos or not kw:
+            continue
+        for _ in range(2):
+            slots = sorted(rng.sample(range(len(ents)), len(pos)))
+            if slots == list(range(len(pos))):
+                continue
+            merged, pi, ki = [], iter(pos), iter(kw)
+            for i in range(len(ents)):
+                merged.append(next(pi) if i in slots else next(ki))
+            t = ';'.join(merged)
+            if t not in out:
+                out.append(t)
+    return out[:4]
+
+
 def e2e_case(rng):
     units = {}
     expect_atoms = {}
@@ -152,6 +177,9 @@ def cases(seed, tier, shard, nshards):
             c = dict(kind='spell', level=level, spellings=all_spellings(rng, lv, res, free), expect=A.expected(lv, res, free),
                      features=sorted({'level_' + level} | {'key_' + k for k in res} | ({'free_keys'} if free else set())),
                      nkeys=len(res) + len(free))
+            c['interleaved'] = interleaved(rng, c['spellings'])
+            if c['interleaved']:
+                c['features'] = sorted(set(c['features']) | {'keyword_entry_before_unnamed_entry'})
         elif rng.random() < 0.25:
             # annotations on atoms that are shared between fragments ([!]): the merged atom is a copy of each of them
             c = None
@@ -220,8 +248,25 @@ def run(case):
                 viol.append(V('c14.spellings_differ', f'{sp!r} gives {rel} but {first[0]!r} gives {first[1]} (level {case["level"]})'))
             if viol:
                 break
+        rejected, accepted = 0, 0
+        for sp in case.get('interleaved', ()):
+            if viol:
+                break
+            try:
+                got = read_attrs(case['level'], sp)
+            except SyntaxError:
+                rejected += 1
+                continue
+            except Exception as err:
+                viol.append(V('c14.exception.' + type(err).__name__, f'annotation {sp!r} at level {case["level"]} raised {type(err).__name__}: {err}'))
+                break
+            accepted += 1
+            rel = {k: got.get(k) for k in set(exp) | {'charge', 'weight', 'chiral'} if k in got}
+            if first is not None and rel != first[1]:
+                viol.append(V('c14.spellings_differ', f'{sp!r} is accepted and gives {rel} but {first[0]!r} gives {first[1]} (level {case["level"]})'))
         contracts.clear()
-        return {'violations': viol, 'evaluations': len(case['spellings']), 'nontrivial': case['nkeys'] > 0,
+        return {'violations': viol, 'evaluations': len(case['spellings']) + accepted, 'nontrivial': case['nkeys'] > 0,
+                'counters': {'interleaved_spellings_accepted_and_compared': accepted}, 'rejected': {'interleaved_spelling_not_accepted': rejected} if rejected else {},
                 'cls': (case['level'], tuple(case['spellings'])),
                 'sample': {'level': case['level'], 'spellings': case['spellings'], 'expect': exp}}
     s = case['string']
